@@ -183,7 +183,7 @@ theorem ret_inv1 {c : LoopCfg} {s : St} {gh : Gh} {who : Caller} {t : Nat}
     · exact ⟨hgt, fun _ => hfr rfl⟩
 
 theorem goRaw_inv1 {c : LoopCfg} {b : Bucket} {s : St} {i : In} {gh : Gh}
-    (h0 : Inv0c c s.env.lastTxn s.lastSynced s.waiting s.pc gh)
+    (h0 : Inv0c c s.env.lastTxn s.lastSynced s.waiting s.pc gh) (hu : s.forceArmed = false)
     (h : PcInv1 c s.lastSynced s.waiting gh s.pc) :
     PcInv1 c (goRaw c b s i).1.lastSynced (goRaw c b s i).1.waiting
       (gh.afterGo b s i (goRaw c b s i).1.pc (goRaw c b s i).1.waiting) (goRaw c b s i).1.pc := by
@@ -200,8 +200,7 @@ theorem goRaw_inv1 {c : LoopCfg} {b : Bucket} {s : St} {i : In} {gh : Gh}
   | sendStored who t =>
     rw [hpc] at h
     rw [goRaw_sendStored hpc]
-    have f6 := sendReturned_pc c
-      { s with committed := s.lastBy.foldl (fun acc p => setAssoc acc p.1 p.2) s.committed } who t
+    have f6 := sendReturned_pc c (stored s) who t
     simp only
     rw [afterGo_plain (by simp [hpc]) (by simp [hpc]) (by simp [hpc]) (by simp [hpc])
       (by rcases f6 with h | h | ⟨e, h⟩ <;> simp [h]) (by rcases f6 with h | h | ⟨e, h⟩ <;> simp [h])]
@@ -237,7 +236,7 @@ theorem goRaw_inv1 {c : LoopCfg} {b : Bucket} {s : St} {i : In} {gh : Gh}
       exact ⟨allGt_beginDump _ _, fun _ => fresh_beginDump _⟩
   | beforeInfo =>
     rw [hpc] at h
-    rw [goRaw_beforeInfo hpc, afterGo_info hpc]
+    rw [goRaw_beforeInfo_unarmed hpc hu, afterGo_info hpc]
     have hgt : ∀ k, AllGt k gh → AllGt k { gh with sinceInfo := [] } := fun k hk => hk
     have hAS : (c.own ∉ s.waiting → Fresh { gh with sinceInfo := [] }) →
         PcInv1 c (afterSend c s).lastSynced (afterSend c s).waiting { gh with sinceInfo := [] }
@@ -307,7 +306,7 @@ theorem goRaw_inv1 {c : LoopCfg} {b : Bucket} {s : St} {i : In} {gh : Gh}
 theorem Inv1.step {c : LoopCfg} {g : G} (h0 : Inv0 c g) (h : Inv1 c g) (e : Ev)
     (hrf : ∀ ops, e = .app ops → ¬ (Racy g.st ∧ recorded g.st ops = true)) : Inv1 c (step c g e) := by
   cases e with
-  | go i => exact Inv1.of_raw (goRaw_inv1 h0 h)
+  | go i => exact Inv1.of_raw (goRaw_inv1 h0.toInv0c h0.unarmed h)
   | app ops => exact h.app h0 ops (hrf ops rfl)
   | list => exact h.list
   | others bs => exact h.others bs
